@@ -711,8 +711,27 @@ func (s *Sys) exec1(toks []string) string {
 					}
 				}
 			}
+			// the physical batches (operation sizes), on a plain MemDB: the rollback is two streams
+			// (range delete + label; index rebuild), each ended by an explicit commit and cut by
+			// BatchWithFlusher in between (Flusher.v); the model knows where the first stream ends
+			wb := "-"
+			if s.cfg.Backend == "memdb" && s.wrap == nil {
+				var bs []string
+				for _, w := range s.hooks.writes {
+					var os []string
+					for _, o := range w {
+						if o.del {
+							os = append(os, fmt.Sprintf("d%d", len(o.k)))
+						} else {
+							os = append(os, fmt.Sprintf("s%d+%d", len(o.k), len(o.v)))
+						}
+					}
+					bs = append(bs, strings.Join(os, ","))
+				}
+				wb = fmt.Sprintf("%d:%s", s.cfg.Flush, strings.Join(bs, "|"))
+			}
 			s.hooks.writes = nil
-			return fmt.Sprintf("wl(%s;ops=%s)", errStr(err), strings.Join(ops, ","))
+			return fmt.Sprintf("wl(%s;ops=%s;wb[%s])", errStr(err), strings.Join(ops, ","), wb)
 		case "r":
 			if toks[1] == "w" {
 				return s.execRead(nil, toks[2:])
